@@ -30,6 +30,12 @@ func NewRawHTTPResponder(writer io.Writer) *RawHTTPResponder {
 	}
 }
 
+// ForRequest tells the responder which request it answers, so that the response to a HEAD
+// request is written without a body (and without a chunked terminator).
+func (c *RawHTTPResponder) ForRequest(req *http.Request) {
+	c.response.Request = req
+}
+
 func (c *RawHTTPResponder) parseAndSetContentLength() error {
 	header := c.response.Header
 
@@ -66,8 +72,15 @@ func (c *RawHTTPResponder) GetHeaders() http.Header {
 }
 
 func (c *RawHTTPResponder) writeResponse() error {
-	// If Content-Length is unknown, we must either use chunked encoding or close the connection.
-	if c.response.ContentLength < 0 {
+	status := c.response.StatusCode
+	if status/100 == 1 || status == http.StatusNoContent || status == http.StatusNotModified {
+		// These responses end with the header section: no body, no chunked framing. Anything
+		// written after the head would be read as the start of the next response on the tunnel.
+		c.response.Body = nil
+		c.response.ContentLength = 0
+		c.response.TransferEncoding = nil
+	} else if c.response.ContentLength < 0 {
+		// If Content-Length is unknown, we must either use chunked encoding or close the connection.
 		c.response.TransferEncoding = []string{"chunked"}
 	}
 
